@@ -462,4 +462,203 @@ theorem loopKids_spec (g : Grammar) (rec : Rec) (s : St) (ret : Nat)
       obtain ⟨hL2, i2, hR2⟩ := ih i1 s1 true sk' (fun c' hc' => hin c' (List.mem_cons_of_mem _ hc')) h hL1 hR1
       exact ⟨hL2, i2, by simpa using hR2⟩
 
+/-! ### register / post / annotate / the recursion -/
+
+theorem register_LS (g : Grammar) (s : St) (el : Nat) (n : Node) (parent : Option Nat) (index : Nat)
+    (pn : PNode) (hshape : pn.kw = .items [] ∨ (∃ v, pn.kw = .item v) ∨ pn.kw = .leaf) (k0 : Bool)
+    (hk0 : ∀ v, pn.kw = .item v → k0 = false) :
+    (register g s el n parent index pn).1 = s.heap.length ∧
+      LS s (register g s el n parent index pn).2 s.heap.length ∧
+      RS (register g s el n parent index pn).2 s.heap.length 0 k0 := by
+  have hget : (s.alloc pn).2.heap[s.heap.length]? = some pn := by simp [St.alloc]
+  have hL : LS s (s.alloc pn).2 s.heap.length := by
+    refine ⟨Nat.le_refl _, by simp [St.alloc], Mono_alloc s pn, ?_⟩
+    intro j b hj hne hb
+    have := (List.getElem?_eq_some_iff.mp hb).1
+    simp [St.alloc] at this
+    omega
+  have hR : RS (s.alloc pn).2 s.heap.length 0 k0 := by
+    refine ⟨pn, hget, ?_⟩
+    rcases hshape with h | ⟨v, h⟩ | h
+    · rw [h]; simp
+    · rw [h]; simp [hk0 v h]
+    · rw [h]; simp
+  have hHS : HS (s.alloc pn).2 (register g s el n parent index pn).2 := by
+    unfold register
+    simp only
+    split
+    · exact HS.trans (b := setL (s.alloc pn).2 ((s.alloc pn).2.index + 1) el
+          { converted := (s.alloc pn).1, parent := parent, parentIndex := index,
+            number := (s.alloc pn).2.index + 1 })
+        (HS_heap_eq rfl) (HS_mark g _ el _ false)
+    · exact HS_heap_eq rfl
+  exact ⟨rfl, LS_HS hL hHS, RS_HS hR hHS⟩
+
+theorem setComplete_heap (s : St) (el : Nat) : (setComplete s el).heap = s.heap := by
+  unfold setComplete; split <;> rfl
+
+theorem post_HS (el : Nat) (n : Node) (hint : Option String) (ret : Nat) (s : St) :
+    HS s (post el n hint ret s).2 ∧ (post el n hint ret s).1.isSome = true := by
+  have h1 : HS s (post1 n hint ret s).2 := by
+    unfold post1
+    split
+    · exact HS_alloc s _ rfl
+    · exact HS.refl s
+  have h2 : HS s (setComplete (post1 n hint ret s).2 el) := h1.trans (HS_heap_eq (setComplete_heap _ _))
+  unfold post
+  simp only
+  split
+  · split
+    · exact ⟨h2.trans ((HS_extract _ el).trans (HS_newNT _ _)), rfl⟩
+    · exact ⟨h2, rfl⟩
+  · exact ⟨h2, rfl⟩
+
+theorem annotate_HS (o : Opts) (n : Node) (r : Option Nat) (s : St) :
+    HS s (annotate o n r s).2 ∧ (annotate o n r s).1.isSome = r.isSome := by
+  unfold annotate
+  split
+  · exact ⟨HS.refl s, rfl⟩
+  · split
+    · exact ⟨HS_alloc s _ rfl, rfl⟩
+    · exact ⟨HS.refl s, rfl⟩
+
+theorem drawsAll_node {g : Grammar} {o : Opts} (hd : drawsAll g o = true) {el : Nat} {n : Node}
+    (hg : g[el]? = some n) : drawOK g o n = true := by
+  unfold drawsAll at hd
+  rw [List.all_eq_true] at hd
+  exact hd n (List.mem_of_getElem? hg)
+
+theorem drawOK_kids {g : Grammar} {o : Opts} {n : Node} (h : drawOK g o n = true) :
+    ∀ c ∈ n.kids, c < g.length := by
+  unfold drawOK at h
+  simp only [Bool.and_eq_true, List.all_eq_true, decide_eq_true_eq] at h
+  exact h.1.2
+
+theorem drawOK_shown {g : Grammar} {o : Opts} {n : Node} (h : drawOK g o n = true) :
+    (!n.shown && !o.showHidden) = false := by
+  unfold drawOK at h
+  simp only [Bool.and_eq_true, Bool.or_eq_true] at h
+  rcases h.1.1 with h1 | h1 <;> simp [h1]
+
+/-- **every returning call of `_to_diagram_element` on an existing element returns an item, keeps all
+    older partials (references are never lost) and leaves every partial it created filled** - for
+    grammars in which every element draws something -/
+theorem conv_HS (g : Grammar) (o : Opts) (hd : drawsAll g o = true) :
+    ∀ fuel el p i h s r s', el < g.length → conv g o fuel el p i h s = some (r, s') →
+      HS s s' ∧ r.isSome = true := by
+  intro fuel
+  induction fuel with
+  | zero => intro el p i h s r s' _ hc; simp [conv] at hc
+  | succ f ih =>
+    intro el p i h s r s' hel hc
+    unfold conv at hc
+    have hg : g[el]? = some g[el] := List.getElem?_eq_getElem hel
+    generalize g[el] = n at hg
+    have hn := drawsAll_node hd hg
+    simp only [hg] at hc
+    cases hb : convBody g o (conv g o f) el n p i h s with
+    | none => simp [hb] at hc
+    | some rs =>
+      obtain ⟨r1, s1⟩ := rs
+      simp only [hb, Option.some.injEq] at hc
+      obtain ⟨ha1, ha2⟩ := annotate_HS o n r1 s1
+      have e : annotate o n r1 s1 = (r, s') := hc
+      rw [e] at ha1 ha2
+      simp only at ha1 ha2
+      suffices hh : HS s s1 ∧ r1.isSome = true from ⟨hh.1.trans ha1, by rw [ha2]; exact hh.2⟩
+      unfold convBody at hb
+      cases hp : pre g o el n p i h s with
+      | pass c h' =>
+        simp only [hp] at hb
+        have hc' : c < g.length := by
+          unfold pre at hp
+          split at hp
+          · rename_i hpass
+            simp only [Pre.pass.injEq] at hp
+            have hk : n.kids ≠ [] := by
+              intro hk
+              simp [isPass, hk] at hpass
+            obtain ⟨hc1, _⟩ := hp
+            rw [← hc1]
+            cases hkk : n.kids with
+            | nil => exact absurd hkk hk
+            | cons a as =>
+              exact drawOK_kids hn a (by rw [hkk]; exact List.mem_cons_self ..)
+          · split at hp
+            · exact absurd hp (by simp)
+            · exact absurd hp (by simp)
+            · unfold preFresh at hp
+              split at hp
+              · exact absurd hp (by simp)
+              · split at hp <;> exact absurd hp (by simp)
+        exact ih _ _ _ _ _ _ _ hc' hb
+      | ret r0 s0 =>
+        simp only [hp, Option.some.injEq, Prod.mk.injEq] at hb
+        obtain ⟨rfl, rfl⟩ := hb
+        unfold pre at hp
+        split at hp
+        · exact absurd hp (by simp)
+        · split at hp
+          · simp only [Pre.ret.injEq] at hp
+            obtain ⟨rfl, rfl⟩ := hp
+            exact ⟨(HS_mark g s el h false).trans (HS_newNT _ _), rfl⟩
+          · simp only [Pre.ret.injEq] at hp
+            obtain ⟨rfl, rfl⟩ := hp
+            exact ⟨HS_newNT _ _, rfl⟩
+          · unfold preFresh at hp
+            rw [drawOK_shown hn] at hp
+            obtain ⟨pn, hpn, _⟩ := drawOK_dispatch hn (nameOf n h)
+            simp only [hpn, Bool.false_eq_true, if_false] at hp
+            exact absurd hp (by simp)
+      | loop ret s0 =>
+        simp only [hp] at hb
+        have hreg : ∃ k0, ret = s.heap.length ∧ LS s s0 s.heap.length ∧ RS s0 s.heap.length 0 k0 ∧
+            (k0 || !n.kids.isEmpty) = true := by
+          unfold pre at hp
+          split at hp
+          · exact absurd hp (by simp)
+          · split at hp
+            · exact absurd hp (by simp)
+            · exact absurd hp (by simp)
+            · unfold preFresh at hp
+              rw [drawOK_shown hn] at hp
+              obtain ⟨pn, hpn, hshape⟩ := drawOK_dispatch hn (nameOf n h)
+              simp only [hpn, Bool.false_eq_true, if_false, Pre.loop.injEq] at hp
+              obtain ⟨rfl, rfl⟩ := hp
+              rcases hshape with h1 | ⟨v, h1, hk⟩ | h1
+              · obtain ⟨e1, e2, e3⟩ := register_LS g s el n p i pn (Or.inl h1) true
+                  (fun v hv => by rw [h1] at hv; exact absurd hv (by simp))
+                exact ⟨true, e1, e2, e3, rfl⟩
+              · obtain ⟨e1, e2, e3⟩ := register_LS g s el n p i pn (Or.inr (Or.inl ⟨v, h1⟩)) false
+                  (fun _ _ => rfl)
+                exact ⟨false, e1, e2, e3, by simp [hk]⟩
+              · obtain ⟨e1, e2, e3⟩ := register_LS g s el n p i pn (Or.inr (Or.inr h1)) true
+                  (fun v hv => by rw [h1] at hv; exact absurd hv (by simp))
+                exact ⟨true, e1, e2, e3, rfl⟩
+        obtain ⟨k0, rfl, hL0, hR0, hk0⟩ := hreg
+        cases hl : loopKids (conv g o f) s.heap.length n.kids 0 s0 with
+        | none => simp [hl] at hb
+        | some s2 =>
+          simp only [hl, Option.some.injEq] at hb
+          obtain ⟨hL2, i2, hR2⟩ := loopKids_spec g (conv g o f) s s.heap.length
+            (fun c p i h s r s' hc hcv => ih c p i h s r s' hc hcv) n.kids 0 s0 k0 s2 (drawOK_kids hn) hl hL0 hR0
+          rw [hk0] at hR2
+          have hHS2 : HS s s2 := by
+            refine ⟨hL2.hlen, hL2.mono, ?_⟩
+            intro j b hj hb'
+            by_cases hjr : j = s.heap.length
+            · subst hjr
+              obtain ⟨a, ha, hka⟩ := hR2
+              rw [hb'] at ha
+              simp only [Option.some.injEq] at ha
+              subst ha
+              cases hkw : b.kw with
+              | leaf => rfl
+              | item v => rw [hkw] at hka; exact hka rfl
+              | items l => rw [hkw] at hka; exact hka.2
+            · exact hL2.others j b hj hjr hb'
+          obtain ⟨p1, p2⟩ := post_HS el n h s.heap.length s2
+          rw [hb] at p1 p2
+          exact ⟨hHS2.trans p1, p2⟩
+
 end PP.Diagram
